@@ -193,6 +193,22 @@ def generate(rng, tier):
                     lines += ["FILE %s reg %s" % (hx("main.conf"), hx(t)), "PF 0 " + hx("main.conf")]
                 cases.append(Case("u%d" % n, lines, {"kind": "unbalanced_" + sname, "where": "after", "nfiles": len(files), "deprecated": False}))
                 n += 1
+    # the error function of a context replaced between two parses: every diagnostic of the later parse - also from inside
+    # sections an earlier parse entered or created - is delivered to the function installed now (G2), none to the old one
+    eschema = [Opt("i", "int", 0, 0), Opt("s", "str", 0, None),
+               Opt("sec", "sec", 0, None, "-", [Opt("x", "int", 0, 0), Opt("inner", "sec", 0, None, "-", [Opt("z", "int", 0, 0)])]),
+               Opt("m", "sec", gen.MULTI | gen.TITLE, None, "-", [Opt("x", "int", 0, 0), Opt("deep", "sec", gen.MULTI, None, "-", [Opt("z", "int", 0, 0)])])]
+    esl = schema_lines(eschema)
+    firsts = [b"sec { x = 1 inner { z = 2 } }\nm t { x = 3 deep { z = 4 } }\n", b"i = 1\n", b"m t { }\nsec { }\n", b"sec { x = bad }\n"]
+    bads = [b"sec { x = oops }\n", b"sec { inner { z = bad } }\n", b"m t { x = q }\n", b"m t { deep { z = q } }\n", b"m fresh { x = q }\n", b"i = x\n",
+            b"sec { nosuch = 1 }\n", b"sec { inner { \n\n = } }\n", b"m t { deep { z = 1 }\n deep { z = '\n", b"sec { x = 5 }\n"]
+    for f1 in firsts:
+        for b1 in bads:
+            for order in ((1, 0), (1, 1), (0, 1)):
+                lines = esl + ["X 0 0", "PB 0 " + hx(f1), "EF 0 %d" % order[0], "PB 0 " + hx(b1), "EF 0 %d" % order[1], "PB 0 " + hx(rng.choice(bads)),
+                               "PB 0 " + hx(b1)]
+                cases.append(Case("ef%d" % n, lines, {"kind": "errfunc", "where": "sections", "nfiles": 0, "deprecated": False}))
+                n += 1
     return cases
 
 
@@ -208,6 +224,9 @@ def _blocks(lines):
 
 
 def project(lines, case):
+    if case.meta.get("kind") == "errfunc":
+        # which of the two error functions got each diagnostic, and its class
+        return [l if l.startswith(("R ", "H ")) else l.split()[0] + " " + l.split()[-1] for l in lines if l.startswith(("R ", "H ", "G ", "G2 "))]
     out = [l for l in lines if l.startswith("H ")]
     for b in _blocks(lines)[1:]:
         gs = [l for l in b if l.startswith("G ")]
@@ -221,7 +240,7 @@ def project(lines, case):
 
 def oracle(case, impl_lines, ctx):
     for b in _blocks(impl_lines)[1:]:
-        gs = [l for l in b if l.startswith("G ")]
+        gs = [l for l in b if l.startswith(("G ", "G2 "))]
         if b[0] == "R 1" and not gs:
             return "parse failed (rc 1) without any diagnostic"
         if b[0] == "R 0" and gs and not case.meta.get("deprecated"):
